@@ -33,18 +33,7 @@ from .api_common import CollectionsStub, ModuleStub
 from .ast_common import AstFactory, base_modules
 
 GEN = "pymoca.backends.casadi.generator"
-_FACTS = None
-
-
-def casadi_facts():
-    """names that exist on casadi.MX in the installed package (never written by hand)"""
-    global _FACTS
-    if _FACTS is None:
-        here = os.path.dirname(os.path.dirname(os.path.abspath(__file__)))
-        out = subprocess.run([os.environ.get("PYVC_REPO_PYTHON", "/venv/bin/python"), os.path.join(here, "tools", "introspect_casadi.py")],
-                             capture_output=True, text=True, timeout=120).stdout
-        _FACTS = json.loads(out.strip().splitlines()[-1])
-    return _FACTS
+from .casadi_facts import casadi_facts  # noqa: E402
 
 
 class MXT(Ext):
